@@ -50,7 +50,6 @@ theorem applyFrame_carriesGo (idx : Nat) (f : Frame) (cjs : Bool) {e : GoErr} {f
             JsKind.hasFinally, JsKind.rethrows, CarriesGo, JsVal.wrapsGo, JsVal.goErrValue, JsVal.isGoErrorInstance,
             JsVal.key, JsKey.isGoErrorInstance]
       | ja => simp [Frame.swallows] at hsw
-      | fot => simp [Frame.swallows] at hsw
       | rfw => simp [Frame.rewraps] at hrw
       | _ =>
         cases cjs <;>
@@ -71,7 +70,6 @@ theorem applyFrame_carriesGo (idx : Nat) (f : Frame) (cjs : Bool) {e : GoErr} {f
             JsKind.hasFinally, JsKind.rethrows, CarriesGo, JsVal.wrapsGo, JsVal.goErrValue, JsVal.isGoErrorInstance,
             JsVal.key, JsKey.isGoErrorInstance]
       | ja => simp [Frame.swallows] at hsw
-      | fot => simp [Frame.swallows] at hsw
       | rfw => simp [Frame.rewraps] at hrw
       | _ =>
         cases cjs <;>
@@ -447,7 +445,6 @@ theorem applyFrame_exact (idx : Nat) (f : Frame) (cjs : Bool) {ex0 : Exc} {fl : 
   | fcv => simp [Frame.rethrows] at hr
   | rfw => simp [Frame.rewraps] at hrw
   | ja => simp [Frame.swallows] at hsw
-  | fot => simp [Frame.swallows] at hsw
   | _ =>
     cases cjs <;>
       simp [applyFrame, callable, invoke, jsCall, runWrapped, vmTry, handleThrow, handleThrowLoop,
